@@ -9,6 +9,7 @@
 -/
 import WD.Generated.EventClasses
 import WD.Generated.InotifyTables
+import WD.Proofs.Pipeline.Filter
 namespace WD.C11
 open WD.Generated
 
@@ -69,5 +70,133 @@ theorem moves_out_seen_as_deleted :
 /-- non-vacuity: the tables are not empty and contain accepted events -/
 example : translation.length = 192 ∧ singletonMask.length = 26 ∧ accepted "FileSystemMovedEvent" "DirMovedEvent*" = true := by
   decide +kernel
+
+/-! ### stream level (recursive watch, drained regime): the whole pipeline under a filter
+
+  `WD.Pipe.Sys.runF m acc` is the pipeline model of C01–C03 with watch mask `m` (the kernel queues only those record
+  kinds) and class filter `acc` on the emitter's queue.  The mask and the accepted classes of a filter are read off the
+  REGENERATED tables (`singletonMask`, `eventClasses`); a filter with several classes has the union of the masks
+  (`get_event_mask_from_filter` is that OR-homomorphism: checked exhaustively over all 2^13 filters on every run). -/
+section stream
+open WD.Pipe
+
+def maskOf (n : Nat) : Flag → Bool
+  | .modify => hasBit n IN_MODIFY | .attrib => hasBit n IN_ATTRIB | .closeWrite => hasBit n IN_CLOSE_WRITE
+  | .closeNoWrite => hasBit n IN_CLOSE_NOWRITE | .open => hasBit n IN_OPEN | .movedFrom => hasBit n IN_MOVED_FROM
+  | .movedTo => hasBit n IN_MOVED_TO | .create => hasBit n IN_CREATE | .delete => hasBit n IN_DELETE
+  | .deleteSelf => hasBit n IN_DELETE_SELF | .ignored => true
+
+/-- the filter's classes accept an event of class `e` -/
+def accOf (cs : List String) (e : EvClass) : Bool := cs.any (fun c => accepted c e.name)
+
+/-- mask of a filter: the recursive watch's bookkeeping bits plus every class's own bits -/
+def filterMask (cs : List String) : Nat :=
+  cs.foldl (fun a c => a ||| ((singletonMask.find? (fun r => r.1 == c && r.2.1)).map (·.2.2)).getD 0) emptyFilterMaskRec
+
+/-- table level, decided over the regenerated tables: every filter class's mask keeps the bookkeeping records and
+    leaves out only record kinds whose events the class rejects -/
+theorem singleton_book_complete :
+    ∀ r ∈ singletonMask, r.2.1 = true →
+      (maskOf r.2.2 .create && maskOf r.2.2 .movedFrom && maskOf r.2.2 .movedTo && maskOf r.2.2 .deleteSelf &&
+       completeB (maskOf r.2.2) (accOf [r.1])) = true := by
+  decide +kernel
+
+theorem empty_book_complete :
+    (maskOf emptyFilterMaskRec .create && maskOf emptyFilterMaskRec .movedFrom && maskOf emptyFilterMaskRec .movedTo &&
+     maskOf emptyFilterMaskRec .deleteSelf && completeB (maskOf emptyFilterMaskRec) (accOf [])) = true := by
+  decide +kernel
+
+theorem hasBit_or (a b bit : Nat) : hasBit (a ||| b) bit = (hasBit a bit || hasBit b bit) := by
+  unfold hasBit
+  rw [Nat.and_or_distrib_right]
+  by_cases h1 : a &&& bit = 0
+  · simp [h1]
+  · have h3 : (a &&& bit ||| b &&& bit) ≠ 0 := by
+      intro h; exact h1 (Nat.or_eq_zero_iff.1 h).1
+    have e1 : ((a &&& bit ||| b &&& bit) != 0) = true := by simpa using h3
+    have e2 : ((a &&& bit) != 0) = true := by simpa using h1
+    rw [e1, e2]; rfl
+
+theorem maskOf_or (a b : Nat) (f : Flag) : maskOf (a ||| b) f = (maskOf a f || maskOf b f) := by
+  cases f <;> simp [maskOf, hasBit_or]
+
+theorem book_of {n : Nat} (h : (maskOf n .create && maskOf n .movedFrom && maskOf n .movedTo && maskOf n .deleteSelf) = true) :
+    Book (maskOf n) := by
+  simp only [Bool.and_eq_true] at h
+  exact ⟨h.1.1.1, h.1.1.2, h.1.2, h.2⟩
+
+/-- every filter over the event classes: its mask keeps the bookkeeping records and is complete for its classes -/
+theorem filter_book_complete (cs : List String) (hcs : ∀ c ∈ cs, ∃ r ∈ singletonMask, r.1 = c ∧ r.2.1 = true) :
+    Book (maskOf (filterMask cs)) ∧ Complete (maskOf (filterMask cs)) (accOf cs) := by
+  have h0 := empty_book_complete
+  simp only [Bool.and_eq_true] at h0
+  have gen : ∀ (cs pre : List String) (n : Nat), (∀ c ∈ cs, ∃ r ∈ singletonMask, r.1 = c ∧ r.2.1 = true) →
+      Book (maskOf n) → Complete (maskOf n) (accOf pre) →
+      Book (maskOf (cs.foldl (fun a c => a ||| ((singletonMask.find? (fun r => r.1 == c && r.2.1)).map (·.2.2)).getD 0) n)) ∧
+      Complete (maskOf (cs.foldl (fun a c => a ||| ((singletonMask.find? (fun r => r.1 == c && r.2.1)).map (·.2.2)).getD 0) n))
+        (accOf (pre ++ cs)) := by
+    intro cs
+    induction cs with
+    | nil => intro pre n _ hb hc; simpa using ⟨hb, hc⟩
+    | cons c rest ih =>
+      intro pre n hmem hb hc
+      simp only [List.foldl_cons]
+      obtain ⟨r, hr, rfl, hrec⟩ := hmem c (List.mem_cons_self ..)
+      -- the row the lookup finds is a recursive row of class `c`
+      cases hfind : singletonMask.find? (fun x => x.1 == r.1 && x.2.1) with
+      | none =>
+        have := List.find?_eq_none.1 hfind r hr
+        simp [hrec] at this
+      | some r' =>
+        have hr'mem := List.mem_of_find?_eq_some hfind
+        have hr'p := List.find?_some hfind
+        simp only [Bool.and_eq_true, beq_iff_eq] at hr'p
+        have hrow := singleton_book_complete r' hr'mem hr'p.2
+        simp only [Bool.and_eq_true] at hrow
+        have hb' : Book (maskOf r'.2.2) := ⟨hrow.1.1.1.1, hrow.1.1.1.2, hrow.1.1.2, hrow.1.2⟩
+        have hc' : Complete (maskOf r'.2.2) (accOf [r'.1]) := Complete_of_check hb' hrow.2
+        have hb2 : Book (maskOf (n ||| r'.2.2)) := by
+          have := hb.union_left (m2 := maskOf r'.2.2)
+          exact ⟨by rw [maskOf_or]; exact this.create, by rw [maskOf_or]; exact this.movedFrom,
+                 by rw [maskOf_or]; exact this.movedTo, by rw [maskOf_or]; exact this.deleteSelf⟩
+        have hc2 : Complete (maskOf (n ||| r'.2.2)) (accOf (pre ++ [r.1])) := by
+          have hu := hc.union hc'
+          intro fs recursive full e hm hne
+          have := hu fs recursive full e (by show (maskOf n e.flag || maskOf r'.2.2 e.flag) = false
+                                             rw [← maskOf_or]; exact hm) hne
+          refine ⟨fun ev hev => ?_, this.2⟩
+          have h3 := this.1 ev hev
+          simp only [accOf, List.any_append, List.any_cons, List.any_nil, Bool.or_false, hr'p.1] at h3 ⊢
+          exact h3
+        have := ih (pre ++ [r.1]) (n ||| r'.2.2) (fun c hc => hmem c (List.mem_cons_of_mem _ hc)) hb2 hc2
+        simpa [Option.map, Option.getD, List.append_assoc] using this
+  have hb0 : Book (maskOf emptyFilterMaskRec) := ⟨h0.1.1.1.1, h0.1.1.1.2, h0.1.1.2, h0.1.2⟩
+  have := gen cs [] emptyFilterMaskRec hcs hb0 (Complete_of_check hb0 h0.2)
+  simpa [filterMask] using this
+
+/-- **the property, stream level** (`_partial`: recursive watch, every operation drained, histories of valid operations):
+    a watch scheduled with the filter `cs` goes through the same states as the unfiltered watch and delivers, operation by
+    operation and in the same order, exactly the unfiltered watch's events that are instances of one of the filter's
+    classes — for every well-formed initial tree, every history, every filter over the event class lattice -/
+theorem stream_filtered_partial (fs0 : FS) (hwf : fs0.WF) (full : Bool) (ops : List Op)
+    (hv : allValid (Sys.start fs0 true full) ops = true)
+    (cs : List String) (hcs : ∀ c ∈ cs, ∃ r ∈ singletonMask, r.1 = c ∧ r.2.1 = true) :
+    (Sys.start fs0 true full).runF (maskOf (filterMask cs)) (accOf cs) ops =
+      (((Sys.start fs0 true full).run ops).1,
+       ((Sys.start fs0 true full).run ops).2.map (fun evs => evs.filter (fun e => accOf cs e.cls))) := by
+  obtain ⟨hb, hc⟩ := filter_book_complete cs hcs
+  obtain ⟨inv, hs, hcr, _, _⟩ := start_rec fs0 hwf full
+  exact runF_eq hb hc _ ops (run_rec _ ops inv hs hcr hv).2.1
+
+/-- non-vacuity: {FileDeletedEvent} on a history with a creation, a move out of the tree and a deletion: the filtered
+    watch reports the move out and the deletion as deletions and nothing else -/
+example :
+    let ops := [Op.create ["W", "a"], .create ["W", "b"], .rename ["W", "a"] ["O", "a"], .unlink ["W", "b"]]
+    ((Sys.start FS.init true false).runF (maskOf (filterMask ["FileDeletedEvent"])) (accOf ["FileDeletedEvent"]) ops).2.map
+        (·.map PEv.toEvent) =
+      [[], [], [⟨.FileDeletedEvent, "W/a", "", false⟩], [⟨.FileDeletedEvent, "W/b", "", false⟩]] := by
+  decide +kernel
+
+end stream
 
 end WD.C11
